@@ -196,7 +196,7 @@ func (g *gen) genCase(s *Struct, path string, depth int) *StructCase {
 			if f.Kind != KSStr && t.Chance(1, 6, "null-element") {
 				fc.Null0 = true
 			}
-		case KIface, KSUCfg, KSMap:
+		case KSUCfg, KSMap:
 			fc.Pre = false
 		case KSUStr:
 			fc.Len = 1 + t.Choose(3, "list-len")
@@ -555,6 +555,10 @@ func (sc *StructCase) prefill(v reflect.Value) {
 			f.Set(reflect.ValueOf(map[string][]int{"p": def, "q": def[:2], "z": {9}}))
 		case KMIface:
 			f.Set(reflect.ValueOf(map[string]interface{}{"z": "zz"}))
+		case KIface:
+			// what an earlier load left there: a primitive of some type (the new setting replaces it,
+			// whatever its type)
+			f.Set(reflect.ValueOf([]interface{}{uint64(5), "old", true}[fc.PreVar]))
 		case KDInt:
 			f.Set(reflect.ValueOf(DInt{A: 5, B: "old", C: 9}))
 		case KPInner:
